@@ -290,41 +290,16 @@ impl SecondaryStorage {
         // compaction that commits after the drop would add a RowSet to a table that is gone.
         let _guard = self.txn_mgr.lock_for_deletion(table_id.table_id).await;
 
-        let mut changeset = vec![];
-
         let entry = DropTableEntry { table_id };
 
         // contrary to create table, we first modify the catalog
         self.apply_drop_table(&entry)?;
 
-        changeset.push(EpochOp::DropTable(entry));
-
-        let pin_version = self.version.pin();
-
-        if let Some(rowsets) = pin_version.snapshot.get_rowsets_of(table_id.table_id) {
-            for rowset_id in rowsets {
-                changeset.push(EpochOp::DeleteRowSet(DeleteRowsetEntry {
-                    table_id,
-                    rowset_id: *rowset_id,
-                }));
-
-                if let Some(dvs) = pin_version
-                    .snapshot
-                    .get_dvs_of(table_id.table_id, *rowset_id)
-                {
-                    for dv_id in dvs {
-                        changeset.push(EpochOp::DeleteDV(DeleteDVEntry {
-                            table_id,
-                            dv_id: *dv_id,
-                            rowset_id: *rowset_id,
-                        }));
-                    }
-                }
-            }
-        }
-
-        // and then persist to manifest
-        self.version.commit_changes(changeset).await?;
+        // and then persist to manifest. The version manager retires the RowSets and DVs of the
+        // table together with the table: only the commit point knows all of them.
+        self.version
+            .commit_changes(vec![EpochOp::DropTable(entry)])
+            .await?;
 
         Ok(())
     }
